@@ -61,6 +61,27 @@ FIRST_MISSED = {
     "C15h": "closed after reading the summary: ratios just below one added (fractions counted in 1/200)",
     "C16h": "closed after reading the summary: a resilient-food run with the intake caps off added to the corpus",
     "C03g": "closed after reading the summary: the plain `continued` schedule was in no preset; two jobs added",
+    # wave 5
+    "C05i": "missed first: the grass on offer was read back from the code's own table; `GrassAsScheduled` compares it with the documented calendar",
+    "C08j": "missed first: each schedule was computed once per process; the fish schedule is now computed twice and must repeat",
+    "C09h": "a history across runs of the supply classes; the effect is in the greenhouse output, which was filed under C08 only: now also reported under C09",
+    "C09j": "missed first: greenhouse-output mismatches were filed under C08 only, and no small input had a tiny cropland share",
+    "C11i": "missed first: refusals were only replayed with all nutrients counted; every flag setting added",
+    "C11j": "missed first: no value just below the precision of the predicates; boundary values added",
+    "C13j": "missed first: no out-of-range override among the cases",
+    "C14i": "missed first: every by-country call built a new runner; one runner per process, as `run_many_options` does",
+    "C15h": "closed after reading the summary: ratios just below one added (fractions counted in 1/400)",
+    # wave 6
+    "C02l": "closed after reading the summary: the caps were read back from the code's inputs; `IntakeCapsAsConfigured` compares them with the documented ones",
+    "C04k": "missed first: every corpus run had a title; a world run without one added",
+    "C04l": "missed first: every corpus run had the per-country figures off; two runs with figures on added",
+    "C06k": "closed after reading the summary: the known finding G5 was keyed by herd only; it is now keyed by herd and month, so negative births in another month are new",
+    "C09k": "missed first: no input with a harvest but no cropland on record",
+    "C11k": "missed first: every operand was dimensionless in all three nutrients or in none; a half-ratio base added",
+    "C11l": "missed first: conversions were only replayed with all nutrients counted; results must not depend on the flags",
+    "C13l": "missed first: the documented value of the in-country waste levels (a column of the country's row) was not in `Doc`",
+    "C14k": "closed after reading the summary: the overriding run type now carries every kind of numeric override",
+    "C18c": "caught from wave 1; a later encoding change turned its `inf` into a machinery failure for a while: a non-finite observation is now a violation",
 }
 
 
